@@ -376,7 +376,7 @@ impl<'l> Tokenizer<'l>
 						{
 							let c = self.data.as_bytes()[pos + off];
 							// simple condition, none of the false positives are matched by above `str::bytes().position()` call
-							if c < b' ' && c >= 0x7F
+							if c < b' ' || c >= 0x7F
 							{
 								self.clear();
 								return Some(Err(self.positioned(TokenErrorKind::BadString)));
